@@ -41,6 +41,7 @@ pub fn run(ctx: &Ctx) -> i32 {
     let acc = pols.par_iter().enumerate().with_max_len(1).map(|(pi, (gt, groups))| {
         let mut acc = Acc::new();
         acc.inc("policies");
+        let t_pol = std::time::Instant::now();
         // SSKR with a 1-of-n group and SSKR validity rules: the sskr crate refuses some specs (e.g. threshold 1 with n > 1); a refused spec is not a violation
         let spec = match groups.iter().map(|&(t, n)| SSKRGroupSpec::new(t, n)).collect::<Result<Vec<_>, _>>().and_then(|g| SSKRSpec::new(*gt, g)) { Ok(s) => s, Err(_) => { acc.inc("specs_refused_by_sskr"); return acc } };
         // in the quick tier the three envelopes rotate over the policies; thorough: all three for every policy
@@ -79,6 +80,7 @@ pub fn run(ctx: &Ctx) -> i32 {
                 }
             }
         }
+        if std::env::var("VH_DEBUG").is_ok() && t_pol.elapsed().as_secs_f64() > 2.0 { eprintln!("slow policy {pi}: gt={gt} groups={groups:?} {:.1}s joins={}", t_pol.elapsed().as_secs_f64(), acc.get("joins")); }
         if pi % 53 == (ctx.seed as usize % 53) { acc.sample(json!({"group_threshold": gt, "groups_t_of_n": groups, "subsets": "all 2^(total shares)"})) }
         acc
     }).reduce(Acc::new, Acc::merge);
